@@ -59,6 +59,16 @@ def _ncp_new( shift ):
 VARIANTS = [
     V( 'ncp-fields-in-one-table', DEFAULTS, _NCP_OLD, _ncp_new( 10 ), silent=[ 'T-NCP', 'K-NCPSTATE' ] ),
     V( 'ncp-table-priority-at-its-high-bit', DEFAULTS, _NCP_OLD, _ncp_new( 11 ), fires=[ 'T-NCP' ] ),
+    V( 'bundle-opener-not-counted', CLIENT, "reqsiz = reqmin + reqest	# the operation that opens the next packet counts, too\n rpysiz = rpymin + rpyest", "reqsiz	= reqmin\n                    rpysiz	= rpymin", fires=[ 'P-BUNDLE' ], why='defect CO' ),
+    V( 'bundle-opener-counted-afterwards', CLIENT, "reqsiz = reqmin + reqest	# the operation that opens the next packet counts, too\n rpysiz = rpymin + rpyest", "reqsiz	= reqest + reqmin\n                    rpysiz	= rpyest + rpymin", silent=[ 'P-BUNDLE' ] ),
+    V( 'poll-params-walked-as-given', POLL, "params = list( params or PARAMS ) # iterated twice; may be a generator", "params			= params or PARAMS", fires=[ 'P-PARAMS' ], why='defect CP' ),
+    V( 'poll-params-as-tuple', POLL, "params = list( params or PARAMS ) # iterated twice; may be a generator", "params			= tuple( params or PARAMS )", silent=[ 'P-PARAMS' ] ),
+    V( 'tcpip-revision-in-object-slot', DEVICE, "self.attribute['1'] = Attribute( 'Revision', UINT,", "self.attribute['0'] = Attribute( 'Revision', 		UINT,", fires=[ 'T-SYMBOL' ], why='defect CQ' ),
+    V( 'cpf-item-record-looked-up-regardless', PARSER, "if itmprs is not None and itmprs.__name__ in item: # an empty item has no payload to produce", "if itmprs is not None:", fires=[ 'L-CPFEMPTY' ], why='defect CR' ),
+    V( 'cpf-item-record-tested-by-get', PARSER, "if itmprs is not None and itmprs.__name__ in item: # an empty item has no payload to produce", "if itmprs is not None and item.get( itmprs.__name__ ) is not None:", silent=[ 'L-CPFEMPTY' ] ),
+    V( 'print-after-store', MAIN, "value ))\n super( Attribute_print, self ).__setitem__( key, value )", "value ))\n            super( Attribute_print, self ).__setitem__( key, value )\n            print( self.name )", fires=[ 'W-PRINT' ], why='defect CS' ),
+    V( 'string-offset-remainder-only', LOGIX, "assert off == 0 or attribute.parser.tag_type < STRING.tag_type \\\n or attribute.parser.tag_type == STRUCT.tag_type, \\\n", "assert off >= 0, \\\n", fires=[ 'F-FRAG' ], why='defect CT' ),
+    V( 'string-offset-refused-by-if', LOGIX, "assert off == 0 or attribute.parser.tag_type < STRING.tag_type \\\n or attribute.parser.tag_type == STRUCT.tag_type, \\\n", "assert not off or attribute.parser.tag_type == STRUCT.tag_type or attribute.parser.tag_type < STRING.tag_type, \\\n", silent=[ 'F-FRAG' ] ),
     V( 'struct-index-not-scaled', AUTO, "beg = self.offset + self.index * siz", "beg			= self.offset + self.index", fires=[ 'T-TYPES' ] ),
     V( 'struct-class-format-compiled', AUTO, "self._struct = struct.Struct( self.struct_format )", "self._struct		= struct.Struct( type( self ).struct_format )", fires=[ 'T-TYPES' ] ),
     V( 'struct-unpack-at-offset', AUTO, "buf = data[ours+self._input][beg:end]\n val = self._struct.unpack_from( buffer=buf )[0]",
@@ -366,7 +376,7 @@ VARIANTS = [
     V( 'pathdefaults-shadowed', DEVICE, "s,e,c = parse_path_component( p.pop( 0 ))\n assert c in (None,1),", "s,elm,cnt		= parse_path_component( p.pop( 0 ))\n        assert cnt in (None,1),", fires=[ 'T-PATHDEFAULTS' ] ),
     V( 'setdefault-none-is-absent', DOT, "if key not in self:\n self[key] = default\n return self[key]", "value			= self.get( key )\n        if value is None:\n            self[key]           = default\n            value		= self[key]\n        return value", fires=[ 'D-DELEGATE' ] ),
     V( 'load-handler-narrowed', HFILES, "regs = dict( ( (int( r ),(realtime,int( v ))) for r,v in data.items() ) )\n except Exception as exc:", "regs	= dict( ( (int( r ),(realtime,int( v ))) for r,v in data.items() ) )\n                        except (AssertionError, ValueError) as exc:", fires=[ 'H-LOAD' ] ),
-    V( 'cpf-stale-input-memo', PARSER, "if item.type_id in cls.ITEM_PARSERS:\n itmprs = cls.ITEM_PARSERS[item.type_id]", "if item.type_id in cls.ITEM_PARSERS and 'input' not in item:\n                itmprs		= cls.ITEM_PARSERS[item.type_id]", fires=[ 'K-STALEMEMO' ] ),
+    V( 'cpf-stale-input-memo', PARSER, "if itmprs is not None and itmprs.__name__ in item: # an empty item has no payload to produce", "if itmprs is not None and itmprs.__name__ in item and 'input' not in item:", fires=[ 'K-STALEMEMO' ] ),
     V( 'client-write-elements-from-data', CLIENT, "if cnt is not None:\n elements = cnt\n req.path = { 'segment': [ dotdict( s ) for s in seg ]}\n if tag_type is None:", "if cnt is not None:\n            elements		= cnt\n        elif data:\n            elements		= len( data )\n        req.path		= { 'segment': [ dotdict( s ) for s in seg ]}\n        if tag_type is None:", fires=[ 'F-CLIENT' ] ),
     V( 'max-bytes-instance-snapshot', LOGIX, "RD_TAG_NAM = \"Read Tag\"", "def __init__( self, name=None, **kwds ):\n        super( Logix, self ).__init__( name=name, **kwds )\n        self.MAX_BYTES		= self.config_int( 'Max Bytes', self.MAX_BYTES )\n\n    RD_TAG_NAM			= \"Read Tag\"", fires=[ 'F-FRAG' ] ),
     V( 'context-strip-both-sides', CLIENT, "return bytes( bytearray( sender_context ).rstrip( b'\\0' ))", "return bytes( bytearray( sender_context ).strip( b'\\0' ))", fires=[ 'T-CONTEXT' ] ),
@@ -451,7 +461,7 @@ VARIANTS = [
     V( 'bundle-member-parse-failure-escapes', DEVICE, "log.normal( \"%s Multiple Service Packet request %d failed to parse: %s\", target, oi, exc )", "raise", fires=[ 'P-CLOSURE' ], why='defect AM' ),
     V( 'routetext-try-asserts-list-only', DEVICE, "assert isinstance( route_path, (type(None),bool,int,list) ), \\\n \"route_path invalid; must resolve to null/0/false or list, not: %r\" % ( route_path, )", "assert isinstance( route_path, list ), \\\n                \"route_path invalid; must resolve to list, not: %r\" % ( route_path, )", fires=[ 'T-ROUTETEXT' ], why='defect AN' ),
     V( 'pathstop-equivalent', DEVICE, "or not attribute #   or no Attribute desired (must return None)", "or attribute in ( False, None, 0 ) or not attribute", silent=[ 'D-PATHSTOP' ] ),
-    V( 'keypass-normalised', MAIN, "def __setitem__( self, key, value ):\n super( Attribute_print, self ).__setitem__( key, value )", "def __setitem__( self, key, value ):\n            if isinstance( key, slice ):\n                key	= slice( *key.indices( len( self )))\n            super( Attribute_print, self ).__setitem__( key, value )", fires=[ 'K-KEYPASS' ] ),
+    V( 'keypass-normalised', MAIN, "value ))\n super( Attribute_print, self ).__setitem__( key, value )", "value ))\n            if isinstance( key, slice ):\n                key	= slice( *key.indices( len( self )))\n            super( Attribute_print, self ).__setitem__( key, value )", fires=[ 'K-KEYPASS' ] ),
     V( 'route-checks-outside-try', UCMM, "rsp,ela = client.await_response( conn, timeout=timeout )\n assert rsp, \\", "rsp,ela	= client.await_response( conn, timeout=timeout )\n                                        assert True, \\", fires=[ 'P-ROUTE' ] ),
     V( 'send-buffered', MAIN, "try:\n conn.send( rpy )\n except socket.error as exc:\n log.detail( \"Session ended (client abandoned): %s\", exc )\n stats['eof'] = True\n if data.response.enip.status:", "if source.peek() is None:\n                            try:\n                                conn.send( rpy )\n                            except socket.error as exc:\n                                log.detail( \"Session ended (client abandoned): %s\", exc )\n                                stats['eof'] = True\n                        if data.response.enip.status:", fires=[ 'P-ONE' ] ),
     V( 'client-data-every-call', CLIENT, "if self.engine is None:\n self.data = dotdict( peer=addr )\n self.engine = self.frame.run( source=self.source, data=self.data )", "self.data		= dotdict( peer=addr )\n            if self.engine is None:\n                self.engine	= self.frame.run( source=self.source, data=self.data )", fires=[ 'P-ACT' ] ),
@@ -643,7 +653,7 @@ VARIANTS = [
     V( 'udp-peer-not-remembered', MAIN, "addr = frm\n stats,_ = stats_for( addr )", "stats,_	= stats_for( frm )", fires=[ 'E-CONTAIN' ], why='seed C08 round 6' ),
     V( 'print-values-as-numbers', MAIN, "key.indices( len( self ))[1]-1 if isinstance( key, slice ) else key,\n value ))\n return value", "key.indices( len( self ))[1]-1 if isinstance( key, slice ) else key,\n                    ', '.join( '%g' % v for v in ( value if isinstance( key, slice ) else [ value ] ))))\n            return value", fires=[ 'W-PRINT' ] ),
     V( 'print-values-as-text', MAIN, "key.indices( len( self ))[1]-1 if isinstance( key, slice ) else key,\n value ))\n return value", "key.indices( len( self ))[1]-1 if isinstance( key, slice ) else key,\n                    ', '.join( '%s' % ( v, ) for v in ( value if isinstance( key, slice ) else [ value ] ))))\n            return value", silent=[ 'W-PRINT' ] ),
-    V( 'print-raw-slice-bound', MAIN, "key.indices( len( self ))[1]-1 if isinstance( key, slice ) else key,\n value ))\n\n # Iterate", "key.stop-1 if isinstance( key, slice ) else key,\n                value ))\n\n    # Iterate", fires=[ 'W-PRINT' ], why='seed C05 round 6' ),
+    V( 'print-raw-slice-bound', MAIN, "key.indices( len( self ))[1]-1 if isinstance( key, slice ) else key,\n value ))\n super( Attribute_print, self ).__setitem__( key, value )", "key.stop-1 if isinstance( key, slice ) else key,\n                value ))\n            super( Attribute_print, self ).__setitem__( key, value )", fires=[ 'W-PRINT' ], why='seed C05 round 6' ),
     V( 'gate-status-and-count', PARSER, "predicate=lambda path=None, data=None, **kwds: data[path+'_ext.size'],", "predicate=lambda path=None, data=None, **kwds: data[path] and data[path+'_ext.size'],", fires=[ 'G-GATE' ], why='seed C10 round 6' ),
     V( 'gate-count-compared', PARSER, "predicate=lambda path=None, data=None, **kwds: data[path+'_ext.size'],", "predicate=lambda path=None, data=None, **kwds: data[path+'_ext.size'] > 0,", silent=[ 'G-GATE' ] ),
     V( 'regex-size-restriction-on-live-only', AUTO, "assert ( 1 <= len( machine.map[pre] ) <= 2 ), \\", "assert ( 1 <= len( [ s for s,d in tab.items() if d in states ] ) <= 2 ), \\", fires=[ 'X-FROMREGEX' ], why='seed C11 round 6' ),
